@@ -1,4 +1,40 @@
-"""scratch draft"""
+"""C11 Fitted curves and surfaces meet interpolation and least-squares conditions (bounded tier).
+
+Contracts on the real geomdl.fitting functions; nothing is stubbed: the collocation / normal-equation systems are
+solved by the real linalg.lu_solve / lu_decomposition / forward_substitution / backward_substitution in exact
+arithmetic, so "the LU solver returns the solution for these spline systems" is part of every instance.
+
+Postconditions (from the property statement):
+  params     compute_params_curve (Eqs 9.4-9.6): uk[0] = 0, uk[-1] = 1, uk[i] = sum_{j<=i} d_j / sum_j d_j with
+             d_j = |Q_j - Q_j-1| (chord length) or sqrt|Q_j - Q_j-1| (centripetal); strictly increasing when
+             consecutive points are distinct.  compute_params_surface: the per-row / per-column averages of those.
+  knots      compute_knot_vector (Eq 9.8) / compute_knot_vector2 (Eqs 9.68-9.69): documented length, clamped,
+             non-decreasing, the closed forms, for *symbolic* increasing parameters.
+  interp     interpolate_curve / interpolate_surface: requested degree(s), one control point per data point, the knot
+             vector of Eq 9.8, and C(uk[i]) = Q[i] / S(uk[i], vl[j]) = Q[i][j] through the real evaluator, where uk, vl
+             are what compute_params_curve / compute_params_surface return for the same data.
+  approx     approximate_curve: requested degree and control point count, end control points = end data points,
+             C(0) = Q[0], C(1) = Q[-1], and the interior control points satisfy the normal equations
+             (N^T N) P = R of The NURBS Book Eqs 9.63-9.67, with N and R rebuilt here from spec.halfopen_basis
+             (textbook Cox-de Boor, independent of helpers.basis_function_one) at the parameters and on the knot vector
+             the function used.  A solution of the normal equations minimises the summed squared distance (convexity,
+             assumption A7).  approximate_surface: requested degrees / sizes and the four corner data points are
+             interpolated (corner control points and S at the domain corners).
+
+What is symbolic.  Data points: `sym` lists the points whose first coordinate is a symbol (any real); every other
+coordinate is a constant.  The constants come from one of two tables:
+  'net'      shapes.net constants (distinct per point, chord lengths irrational -> math.sqrt yields algebraic atoms,
+             also for constant radicands: sqrt(13/4) is an exact algebraic constant, never a float),
+  'lattice'  a polyline whose steps are rational unit vectors times perfect squares, so chord lengths *and* their
+             square roots (centripetal) are exact rationals for the concrete points.
+With sym = all points the instance holds for every real value of one coordinate of every data point (the other
+coordinates fixed, consecutive points therefore distinct); with fewer symbols the remaining points are concrete.
+Chord lengths that involve a symbol are sqrt atoms s with s >= 0, s*s = radicand (A4); centripetal = atom of an atom.
+Parameters / knots are rational functions of those atoms, the branch conditions of span search and of
+basis_function_one (uk[i] against averaged knots) are decided by z3 over the reals with those atom definitions.
+`params_curve` additionally has fully symbolic points (all coordinates) with the explicit precondition "consecutive
+points distinct".
+"""
 from fractions import Fraction
 
 from .api import scenario
@@ -6,18 +42,389 @@ from . import shapes, spec, assumptions
 
 assumptions.PROPS['C11'] = {'level': 'other', 'assume': ['A1', 'A2', 'A4', 'A5', 'A6', 'A7']}
 
+F = Fraction
 
-def _data(ctx, n, dim):
-    return shapes.net(ctx, 'Q', n, dim)
+# rational unit vectors (2-D, 3-D) and perfect-square step lengths
+_DIR2 = [(F(3, 5), F(4, 5)), (F(12, 13), F(5, 13)), (F(4, 5), F(-3, 5)), (F(5, 13), F(12, 13)), (F(1), F(0)),
+         (F(8, 17), F(15, 17)), (F(15, 17), F(-8, 17))]
+_DIR3 = [(F(1, 3), F(2, 3), F(2, 3)), (F(6, 7), F(2, 7), F(-3, 7)), (F(2, 3), F(-1, 3), F(2, 3)), (F(2, 7), F(3, 7), F(6, 7)),
+         (F(4, 9), F(4, 9), F(7, 9)), (F(8, 9), F(1, 9), F(-4, 9)), (F(0), F(0), F(1))]
+_LEN = [F(4), F(1), F(9), F(1, 4), F(9, 4), F(1), F(4), F(16)]
 
 
-@scenario('C11', fns=['fitting.interpolate_curve'],
-          quick=lambda: [dict(n=n, p=p, centripetal=c) for n in (3, 4, 5) for p in (1, 2, 3) if p < n for c in (False, True)])
-def interp_curve(ctx, n, p, centripetal):
+def _lattice(n, dim, shift=0):
+    """n concrete points; consecutive distances are perfect squares of rationals"""
+    dirs = _DIR2 if dim == 2 else _DIR3
+    pt = [F(1, 2) * (d + 1) for d in range(dim)]
+    out = [list(pt)]
+    for i in range(1, n):
+        dv = dirs[(i - 1 + shift) % len(dirs)]
+        ln = _LEN[(i - 1 + 3 * shift) % len(_LEN)]
+        pt = [a + ln * b for a, b in zip(pt, dv)]
+        out.append(list(pt))
+    return out
+
+
+def _points(ctx, n, dim, sym, table, prefix='Q'):
+    """data points (see module docstring): sym = 'all' | list of indices with a symbolic first coordinate"""
+    if table == 'lattice':
+        base = [[ctx.lit(c) for c in pt] for pt in _lattice(n, dim)]
+    else:
+        base = [[ctx.lit(F(3 * i * i - 7 * i, 4))] + [ctx.lit(F((i + 1) * (d + 2) + d * d, 1 + d)) for d in range(1, dim)]
+                for i in range(n)]
+    idx = range(n) if sym == 'all' else sym
+    for i in idx:
+        base[i][0] = ctx.num('%s%d' % (prefix, i))
+    return base
+
+
+def _copy(pts):
+    return [list(p) for p in pts]
+
+
+def _sqrt(ctx, x):
+    """math.sqrt as the engine models it (A4: exact root, else an algebraic atom s >= 0, s*s == x) / native sqrt"""
+    if ctx.mode == 'sym':
+        from symx import qnum
+        return qnum.vq_sqrt(x)
+    import math
+    return math.sqrt(x)
+
+
+def _total(xs):
+    t = 0
+    for x in xs:
+        t = t + x
+    return t
+
+
+def params_spec(ctx, pts, centripetal):
+    """Eqs 9.4-9.6 written from the book"""
+    n = len(pts)
+    ds = []
+    for i in range(1, n):
+        d = _sqrt(ctx, _total((a - b) * (a - b) for a, b in zip(pts[i], pts[i - 1])))
+        ds.append(_sqrt(ctx, d) if centripetal else d)
+    tot = _total(ds)
+    return [_total(ds[:i]) / tot for i in range(n)]
+
+
+def _check_params(ctx, tag, uk, n):
+    ctx.check_true(tag + '.len', len(uk) == n, 'len=%d, expected %d' % (len(uk), n))
+    ctx.check_eq(tag + '[0]=0', uk[0], 0)
+    ctx.check_eq(tag + '[-1]=1', uk[-1], 1)
+    for i in range(n - 1):
+        ctx.check('%s.increasing[%d]' % (tag, i), ctx.lt(uk[i], uk[i + 1]))
+
+
+# ------------------------------------------------------------------------------------------------
+# parameters
+# ------------------------------------------------------------------------------------------------
+def _pc_shapes(tier):
+    out = []
+    for c in (False, True):
+        for n in (3, 4, 5, 6):
+            out.append(dict(n=n, dim=2, centripetal=c, sym='all' if n <= 5 else [1, 4], table='net'))
+        out.append(dict(n=4, dim=3, centripetal=c, sym='all', table='net'))
+        out.append(dict(n=6, dim=3, centripetal=c, sym=[2], table='lattice'))
+        out.append(dict(n=3, dim=2, centripetal=c, sym='free', table='net'))
+    if tier == 'thorough':
+        for c in (False, True):
+            out.append(dict(n=6, dim=2, centripetal=c, sym='all', table='net'))
+            out.append(dict(n=3, dim=3, centripetal=c, sym='free', table='net'))
+            out.append(dict(n=8, dim=3, centripetal=c, sym=[0, 3, 7], table='lattice'))
+    return out
+
+
+@scenario('C11', fns=['fitting.compute_params_curve', 'linalg.point_distance', 'linalg.vector_magnitude'],
+          quick=lambda: _pc_shapes('quick'), thorough=lambda: _pc_shapes('thorough'))
+def params_curve(ctx, n, dim, centripetal, sym, table):
+    """requires: consecutive points distinct (sym='free': every coordinate symbolic and the precondition assumed;
+                 otherwise implied by the distinct constants)
+       ensures : Eqs 9.4-9.6; uk[0] = 0, uk[-1] = 1, strictly increasing"""
     fit = ctx.geomdl('fitting')
-    Q = _data(ctx, n, 2)
-    crv = fit.interpolate_curve([list(q) for q in Q], p, centripetal=centripetal)
-    ctx.check_true('degree', crv.degree == p)
-    uk = fit.compute_params_curve([list(q) for q in Q], centripetal)
+    if sym == 'free':
+        Q = [[ctx.num('Q%d_%d' % (i, d)) for d in range(dim)] for i in range(n)]
+        for a, b in zip(Q, Q[1:]):
+            ctx.assume(ctx.any(*[ctx.ne(x, y) for x, y in zip(a, b)]))
+    else:
+        Q = _points(ctx, n, dim, sym, table)
+    uk = fit.compute_params_curve(_copy(Q), centripetal)
+    _check_params(ctx, 'uk', uk, n)
+    ctx.check_eq_vec('uk=Eq9.5/9.6', uk, params_spec(ctx, Q, centripetal))
+    ctx.check_eq_vec('default=chord_length', fit.compute_params_curve(_copy(Q)), params_spec(ctx, Q, False))
+    ctx.check_eq_vec('tuple_input', fit.compute_params_curve(tuple(tuple(q) for q in Q), centripetal), uk)
+    ctx.check_raises('non_sequence_rejected', TypeError, fit.compute_params_curve, dict(enumerate(_copy(Q))), centripetal)
+
+
+def _grid(ctx, su, sv, sym, table):
+    """data grid Q[v + sv*u], dim 3.
+    'plane'  : x_u, y_v unevenly spaced, z = 4/3 x + 3/4 y  ->  every row / column chord is rational
+    'net'    : x_u, y_v unevenly spaced, z a non-planar integer function (algebraic chord lengths)"""
+    xs = [F(0), F(3), F(9, 2), F(15, 2), F(12)][:su]
+    ys = [F(1), F(5), F(7), F(13), F(16)][:sv]
+    pts = []
+    for u in range(su):
+        for v in range(sv):
+            if table == 'plane':
+                z = F(4, 3) * xs[u] + F(3, 4) * ys[v]
+            else:
+                z = F((u * u + 2 * v * v + u * v) % 5, 1) + F(u - v, 2)
+            pts.append([ctx.lit(xs[u]), ctx.lit(ys[v]), ctx.lit(z)])
+    for (u, v) in sym:
+        pts[v + sv * u][2] = ctx.num('Q%d_%d' % (u, v))
+    return pts
+
+
+def _ps_shapes(tier):
+    out = [dict(su=3, sv=3, centripetal=False, sym=[(1, 1)], table='plane'),
+           dict(su=3, sv=4, centripetal=True, sym=[(0, 0)], table='plane'),
+           dict(su=4, sv=3, centripetal=False, sym=[(0, 1), (3, 2)], table='net'),
+           dict(su=4, sv=4, centripetal=True, sym=[], table='net')]
+    return out
+
+
+@scenario('C11', fns=['fitting.compute_params_surface', 'fitting.compute_params_curve'],
+          quick=lambda: _ps_shapes('quick'))
+def params_surface(ctx, su, sv, centripetal, sym, table):
+    """ensures: uk[u] = mean over the sv rows of the row's curve parameter, vl[v] = mean over the su columns
+                (The NURBS Book pp.366-367); both start at 0, end at 1 and increase strictly"""
+    fit = ctx.geomdl('fitting')
+    Q = _grid(ctx, su, sv, sym, table)
+    uk, vl = fit.compute_params_surface(_copy(Q), su, sv, centripetal)
+    _check_params(ctx, 'uk', uk, su)
+    _check_params(ctx, 'vl', vl, sv)
+    rows = [params_spec(ctx, [Q[v + sv * u] for u in range(su)], centripetal) for v in range(sv)]
+    cols = [params_spec(ctx, [Q[v + sv * u] for v in range(sv)], centripetal) for u in range(su)]
+    ctx.check_eq_vec('uk=row_average', uk, [_total(r[u] for r in rows) / sv for u in range(su)])
+    ctx.check_eq_vec('vl=column_average', vl, [_total(c[v] for c in cols) / su for v in range(sv)])
+
+
+# ------------------------------------------------------------------------------------------------
+# knot vectors
+# ------------------------------------------------------------------------------------------------
+def _uk(ctx, n):
+    """symbolic parameters 0 = uk[0] < uk[1] < ... < uk[n-1] = 1"""
+    uk = [ctx.lit(0)] + [ctx.num('t%d' % i) for i in range(1, n - 1)] + [ctx.lit(1)]
+    ctx.assume_sorted(uk, strict=True)
+    return uk
+
+
+def _check_kv(ctx, tag, kv, p, ncp):
+    ctx.check_true(tag + '.len', len(kv) == ncp + p + 1, 'len=%d, expected %d' % (len(kv), ncp + p + 1))
+    ctx.check_eq_vec(tag + '.clamped_start', kv[:p + 1], [0] * (p + 1))
+    ctx.check_eq_vec(tag + '.clamped_end', kv[-(p + 1):], [1] * (p + 1))
+    for i in range(len(kv) - 1):
+        ctx.check('%s.non_decreasing[%d]' % (tag, i), ctx.le(kv[i], kv[i + 1]))
+
+
+def kv_spec(p, n, uk):
+    """Eq 9.8: u_0..u_p = 0, u_(j+p) = (1/p) sum_{i=j}^{j+p-1} uk_i  (j = 1..n-p-1), u_n..u_(n+p) = 1; n = points"""
+    kv = [0] * (p + 1)
+    for j in range(1, n - p):
+        kv.append(_total(uk[j:j + p]) / p)
+    return kv + [1] * (p + 1)
+
+
+def kv2_spec(p, ndp, ncp, uk):
+    """Eqs 9.68-9.69 with m+1 = ndp data points, n+1 = ncp control points:
+       d = (m+1)/(n-p+1), i = int(j d), alpha = j d - i, u_(p+j) = (1-alpha) uk_(i-1) + alpha uk_i, j = 1..n-p"""
+    d = Fraction(ndp, ncp - p)
+    kv = [0] * (p + 1)
+    for j in range(1, ncp - p):
+        i = (j * d).numerator // (j * d).denominator
+        al = j * d - i
+        kv.append((1 - al) * uk[i - 1] + al * uk[i])
+    return kv + [1] * (p + 1)
+
+
+def _kv_shapes(tier):
+    nmax, pmax = (8, 4) if tier == 'quick' else (12, 6)
+    return [dict(n=n, p=p) for n in range(3, nmax + 1) for p in range(1, pmax + 1) if p < n]
+
+
+@scenario('C11', fns=['fitting.compute_knot_vector'], quick=lambda: _kv_shapes('quick'), thorough=lambda: _kv_shapes('thorough'))
+def knot_vector(ctx, n, p):
+    """requires: 0 = uk[0] < ... < uk[n-1] = 1 (symbols), 1 <= p < n
+       ensures : n + p + 1 knots, clamped, non-decreasing, Eq 9.8"""
+    fit = ctx.geomdl('fitting')
+    uk = _uk(ctx, n)
+    kv = fit.compute_knot_vector(p, n, list(uk))
+    _check_kv(ctx, 'kv', kv, p, n)
+    ctx.check_eq_vec('kv=Eq9.8', kv, kv_spec(p, n, uk))
+
+
+def _kv2_shapes(tier):
+    mmax = 8 if tier == 'quick' else 12
+    return [dict(m=m, p=p, ncp=c) for m in range(5, mmax + 1) for p in (1, 2, 3, 4) for c in range(p + 2, m)]
+
+
+@scenario('C11', fns=['fitting.compute_knot_vector2'], quick=lambda: _kv2_shapes('quick'), thorough=lambda: _kv2_shapes('thorough'))
+def knot_vector2(ctx, m, p, ncp):
+    """requires: m increasing symbolic parameters, p + 2 <= ncp <= m - 1
+       ensures : ncp + p + 1 knots, clamped, non-decreasing, Eqs 9.68-9.69"""
+    fit = ctx.geomdl('fitting')
+    uk = _uk(ctx, m)
+    kv = fit.compute_knot_vector2(p, m, ncp, list(uk))
+    _check_kv(ctx, 'kv', kv, p, ncp)
+    ctx.check_eq_vec('kv=Eq9.68-9.69', kv, kv2_spec(p, m, ncp, uk))
+
+
+# ------------------------------------------------------------------------------------------------
+# interpolation
+# ------------------------------------------------------------------------------------------------
+def _ic_shapes(tier):
+    out = []
+    for c in (False, True):
+        for n in (3, 4):
+            for p in range(1, n):
+                out.append(dict(n=n, p=p, dim=2, centripetal=c, sym='all', table='net'))
+        out.append(dict(n=4, p=3, dim=3, centripetal=c, sym='all', table='net'))
+        for p in (1, 2, 3):
+            out.append(dict(n=5, p=p, dim=2, centripetal=c, sym=[2], table='lattice'))
+        out.append(dict(n=5, p=2, dim=2, centripetal=c, sym=[0, 4], table='net'))
+        out.append(dict(n=6, p=3, dim=3, centripetal=c, sym=[], table='lattice'))
+    return out
+
+
+@scenario('C11', fns=['fitting.interpolate_curve', 'fitting.compute_params_curve', 'fitting.compute_knot_vector',
+                      'fitting._build_coeff_matrix', 'linalg.lu_solve', 'linalg.lu_decomposition', '_linalg.doolittle',
+                      'linalg.forward_substitution', 'linalg.backward_substitution', 'helpers.find_span_linear',
+                      'helpers.basis_function', 'BSpline.Curve.evaluate_single'],
+          quick=lambda: _ic_shapes('quick'), thorough=lambda: _ic_shapes('thorough'))
+def interp_curve(ctx, n, p, dim, centripetal, sym, table):
+    """requires: n data points, consecutive ones distinct, 1 <= p < n
+       ensures : degree p, n control points, knot vector of Eq 9.8 on uk, C(uk[i]) = Q[i] for every i"""
+    fit = ctx.geomdl('fitting')
+    Q = _points(ctx, n, dim, sym, table)
+    arg = _copy(Q)
+    crv = fit.interpolate_curve(arg, p, centripetal=centripetal)
+    ctx.check_eq_grid('input.unchanged', arg, Q)
+    uk = fit.compute_params_curve(_copy(Q), centripetal)
+    ctx.check_true('type', isinstance(crv, ctx.geomdl('BSpline').Curve) and not crv.rational)
+    ctx.check_true('degree', crv.degree == p, 'degree=%r, requested %d' % (crv.degree, p))
+    ctx.check_true('ctrlpts.count', crv.ctrlpts_size == n and len(crv.ctrlpts) == n)
+    ctx.check_true('dimension', crv.dimension == dim)
+    ctx.check_eq_vec('knotvector=Eq9.8', crv.knotvector, kv_spec(p, n, uk))
     for i in range(n):
         ctx.check_eq_vec('through[%d]' % i, crv.evaluate_single(uk[i]), Q[i])
+
+
+def _is_shapes(tier):
+    out = [dict(su=3, sv=3, pu=2, pv=2, centripetal=False, sym=[(1, 1)], table='plane'),
+           dict(su=3, sv=3, pu=1, pv=2, centripetal=True, sym=[(0, 2)], table='plane'),
+           dict(su=3, sv=4, pu=2, pv=3, centripetal=False, sym=[], table='net'),
+           dict(su=4, sv=3, pu=3, pv=1, centripetal=False, sym=[(2, 1)], table='plane'),
+           dict(su=4, sv=4, pu=3, pv=3, centripetal=False, sym=[], table='net'),
+           dict(su=4, sv=4, pu=2, pv=3, centripetal=True, sym=[], table='plane')]
+    return out
+
+
+@scenario('C11', fns=['fitting.interpolate_surface', 'fitting.compute_params_surface', 'fitting.compute_knot_vector',
+                      'fitting._build_coeff_matrix', 'linalg.lu_solve', 'BSpline.Surface.evaluate_single'],
+          quick=lambda: _is_shapes('quick'), thorough=lambda: _is_shapes('thorough'))
+def interp_surface(ctx, su, sv, pu, pv, centripetal, sym, table):
+    """requires: su x sv data grid Q[v + sv*u] (rows and columns of distinct consecutive points)
+       ensures : degrees (pu, pv), su x sv control points, knot vectors of Eq 9.8 on uk / vl,
+                 S(uk[i], vl[j]) = Q[j + sv*i] for every i, j"""
+    fit = ctx.geomdl('fitting')
+    Q = _grid(ctx, su, sv, sym, table)
+    srf = fit.interpolate_surface(_copy(Q), su, sv, pu, pv, centripetal=centripetal)
+    uk, vl = fit.compute_params_surface(_copy(Q), su, sv, centripetal)
+    ctx.check_true('type', isinstance(srf, ctx.geomdl('BSpline').Surface) and not srf.rational)
+    ctx.check_true('degree', srf.degree_u == pu and srf.degree_v == pv,
+                   'degrees=(%r, %r), requested (%d, %d)' % (srf.degree_u, srf.degree_v, pu, pv))
+    ctx.check_true('ctrlpts.count', srf.ctrlpts_size_u == su and srf.ctrlpts_size_v == sv and len(srf.ctrlpts) == su * sv)
+    ctx.check_eq_vec('knotvector_u=Eq9.8', srf.knotvector_u, kv_spec(pu, su, uk))
+    ctx.check_eq_vec('knotvector_v=Eq9.8', srf.knotvector_v, kv_spec(pv, sv, vl))
+    for i in range(su):
+        for j in range(sv):
+            ctx.check_eq_vec('through[%d][%d]' % (i, j), srf.evaluate_single([uk[i], vl[j]]), Q[j + sv * i])
+
+
+# ------------------------------------------------------------------------------------------------
+# least squares
+# ------------------------------------------------------------------------------------------------
+def normal_equations(p, kv, uk, Q, ncp):
+    """(N^T N, R) of Eqs 9.63-9.67 for data Q at parameters uk, ncp control points on knot vector kv.
+    N[k-1][j-1] = N_j,p(uk_k) (k = 1..m-1, j = 1..n-1); R_k = Q_k - N_0(uk_k) Q_0 - N_n(uk_k) Q_m;
+    R[j-1] = sum_k N_j(uk_k) R_k"""
+    m, n = len(Q) - 1, ncp - 1
+    dim = len(Q[0])
+    B = [[spec.halfopen_basis(j, p, kv, uk[k]) for j in range(n + 1)] for k in range(1, m)]     # rows k = 1..m-1
+    NtN = [[_total(B[k][a] * B[k][b] for k in range(m - 1)) for b in range(1, n)] for a in range(1, n)]
+    Rk = [[Q[k][d] - B[k - 1][0] * Q[0][d] - B[k - 1][n] * Q[m][d] for d in range(dim)] for k in range(1, m)]
+    R = [[_total(B[k][j] * Rk[k][d] for k in range(m - 1)) for d in range(dim)] for j in range(1, n)]
+    return NtN, R
+
+
+def _ac_shapes(tier):
+    out = []
+    for c in (False, True):
+        out.append(dict(m=5, p=2, ncp=4, dim=2, centripetal=c, sym='all', table='net'))
+        out.append(dict(m=6, p=2, ncp=4, dim=2, centripetal=c, sym=[1, 4], table='lattice'))
+        out.append(dict(m=6, p=2, ncp=5, dim=3, centripetal=c, sym=[3], table='lattice'))
+        out.append(dict(m=6, p=3, ncp=5, dim=2, centripetal=c, sym=[2], table='net'))
+        out.append(dict(m=7, p=2, ncp=5, dim=2, centripetal=c, sym=[], table='net'))
+        out.append(dict(m=7, p=3, ncp=6, dim=3, centripetal=c, sym=[], table='lattice'))
+        out.append(dict(m=7, p=3, ncp=5, dim=2, centripetal=c, sym=[6], table='lattice'))
+    return out
+
+
+@scenario('C11', fns=['fitting.approximate_curve', 'fitting.compute_params_curve', 'fitting.compute_knot_vector2',
+                      'helpers.basis_function_one', 'linalg.matrix_transpose', 'linalg.matrix_multiply',
+                      'linalg.lu_decomposition', '_linalg.doolittle', 'linalg.forward_substitution',
+                      'linalg.backward_substitution', 'BSpline.Curve.evaluate_single'],
+          quick=lambda: _ac_shapes('quick'), thorough=lambda: _ac_shapes('thorough'))
+def approx_curve(ctx, m, p, ncp, dim, centripetal, sym, table):
+    """requires: m data points (consecutive distinct), p + 2 <= ncp <= m - 1
+       ensures : degree p, ncp control points, knot vector of Eqs 9.68-9.69 on uk, P[0] = Q[0], P[-1] = Q[-1],
+                 C(0) = Q[0], C(1) = Q[-1], (N^T N) P_interior = R  (Eqs 9.63-9.67)"""
+    fit = ctx.geomdl('fitting')
+    Q = _points(ctx, m, dim, sym, table)
+    crv = fit.approximate_curve(_copy(Q), p, centripetal=centripetal, ctrlpts_size=ncp)
+    uk = fit.compute_params_curve(_copy(Q), centripetal)
+    ctx.check_true('degree', crv.degree == p, 'degree=%r, requested %d' % (crv.degree, p))
+    ctx.check_true('ctrlpts.count', crv.ctrlpts_size == ncp and len(crv.ctrlpts) == ncp,
+                   'ctrlpts_size=%r, requested %d' % (crv.ctrlpts_size, ncp))
+    kv = list(crv.knotvector)
+    ctx.check_eq_vec('knotvector=Eq9.68-9.69', kv, kv2_spec(p, m, ncp, uk))
+    P = crv.ctrlpts
+    ctx.check_eq_vec('end.P0=Q0', P[0], Q[0])
+    ctx.check_eq_vec('end.Pn=Qm', P[-1], Q[-1])
+    ctx.check_eq_vec('end.C(0)=Q0', crv.evaluate_single(0), Q[0])
+    ctx.check_eq_vec('end.C(1)=Qm', crv.evaluate_single(1), Q[-1])
+    NtN, R = normal_equations(p, kv, uk, Q, ncp)
+    for a in range(ncp - 2):
+        for d in range(dim):
+            ctx.check_eq('normal_eq[%d][%d]' % (a + 1, d), _total(NtN[a][b] * P[b + 1][d] for b in range(ncp - 2)), R[a][d])
+
+
+def _as_shapes(tier):
+    out = [dict(su=5, sv=5, pu=2, pv=2, cu=4, cv=4, centripetal=False, sym=[(0, 0), (4, 4)], table='plane'),
+           dict(su=5, sv=6, pu=2, pv=3, cu=4, cv=5, centripetal=True, sym=[(4, 0)], table='plane'),
+           dict(su=6, sv=5, pu=3, pv=2, cu=5, cv=4, centripetal=False, sym=[], table='net')]
+    return out
+
+
+@scenario('C11', fns=['fitting.approximate_surface', 'fitting.compute_params_surface', 'fitting.compute_knot_vector2',
+                      'helpers.basis_function_one', 'linalg.lu_decomposition', 'linalg.forward_substitution',
+                      'linalg.backward_substitution', 'BSpline.Surface.evaluate_single'],
+          quick=lambda: _as_shapes('quick'), thorough=lambda: _as_shapes('thorough'))
+def approx_surface(ctx, su, sv, pu, pv, cu, cv, centripetal, sym, table):
+    """requires: su x sv data grid, p + 2 <= control points <= data points - 1 per direction
+       ensures : degrees, cu x cv control points, knot vectors of Eqs 9.68-9.69, the four corner control points are
+                 the corner data points and S at the domain corners equals them"""
+    fit = ctx.geomdl('fitting')
+    Q = _grid(ctx, su, sv, sym, table)
+    srf = fit.approximate_surface(_copy(Q), su, sv, pu, pv, centripetal=centripetal, ctrlpts_size_u=cu, ctrlpts_size_v=cv)
+    uk, vl = fit.compute_params_surface(_copy(Q), su, sv, centripetal)
+    ctx.check_true('degree', srf.degree_u == pu and srf.degree_v == pv)
+    ctx.check_true('ctrlpts.count', srf.ctrlpts_size_u == cu and srf.ctrlpts_size_v == cv and len(srf.ctrlpts) == cu * cv)
+    ctx.check_eq_vec('knotvector_u=Eq9.68-9.69', srf.knotvector_u, kv2_spec(pu, su, cu, uk))
+    ctx.check_eq_vec('knotvector_v=Eq9.68-9.69', srf.knotvector_v, kv2_spec(pv, sv, cv, vl))
+    P = srf.ctrlpts
+    for (a, b) in ((0, 0), (0, 1), (1, 0), (1, 1)):
+        q = Q[b * (sv - 1) + sv * (a * (su - 1))]
+        ctx.check_eq_vec('corner%d%d.ctrlpt' % (a, b), P[b * (cv - 1) + cv * (a * (cu - 1))], q)
+        ctx.check_eq_vec('corner%d%d.S' % (a, b), srf.evaluate_single([a, b]), q)
